@@ -303,7 +303,7 @@ pub fn gen_sprite(r: &mut StdRng, k: &Knobs) -> Program {
                 continue;
             }
             let (tw, th) = if k.bigmap {
-                *[(256u16, 1u16), (1, 256), (128, 2), (2, 128), (255, 1), (1, 300), (1, 1), (1, 1), (2, 1)].choose(r).unwrap()
+                *[(256u16, 1u16), (1, 256), (128, 2), (2, 128), (255, 1), (1, 300), (1, 1), (1, 1), (2, 1), (1, 1), (2, 1), (1, 1)].choose(r).unwrap()
             } else if k.max_wh > 1000 && r.gen_bool(0.5) {
                 *[(2u16, 2u16), (255, 3), (3, 255), (16, 16), (1, 1000), (4096, 1)].choose(r).unwrap()
             } else if r.gen_bool(0.15) {
